@@ -168,6 +168,23 @@ def run(code, fname, params, seed, raising):
     -> (outcome, log)"""
     w = World(seed, raising)
     g = {'__builtins__': __builtins__}
+    import signal
+    import threading
+    timed = threading.current_thread() is threading.main_thread()
+    if timed:
+        def _alarm(signum, frame):
+            raise Abort()
+        old_handler = signal.signal(signal.SIGALRM, _alarm)
+        signal.setitimer(signal.ITIMER_REAL, 2.0)
+    try:
+        return _run(code, fname, params, w, g)
+    finally:
+        if timed:
+            signal.setitimer(signal.ITIMER_REAL, 0)
+            signal.signal(signal.SIGALRM, old_handler)
+
+
+def _run(code, fname, params, w, g):
     try:
         exec(code, g)
         fn = g[fname]
